@@ -31,6 +31,7 @@ type half struct {
 	stalled    bool // the peer does not drain its socket and the buffer is full: writes block
 	freezeAt   int  // >= 0: nothing beyond this many bytes is ever delivered, and no end of stream either (silent peer / partition)
 	failAt     int  // >= 0: the write that crosses this many bytes written is partial and fails (peer died mid-write)
+	failOnce   bool // with failAt: the failure is transient (a write deadline): at least one byte and not all are written, the direction stays usable
 	readerGone bool // the reading end was closed locally
 }
 
@@ -181,7 +182,25 @@ func (c *Conn) Write(p []byte) (int, error) {
 	if c.wr.dead || c.wr.readerGone {
 		return 0, epipe()
 	}
-	if c.wr.failAt >= 0 && c.wr.written+len(p) > c.wr.failAt {
+	if c.wr.failAt >= 0 && c.wr.failOnce && c.wr.written+len(p) > c.wr.failAt && len(p) >= 2 {
+		// a transient failure in the middle of this write (a timeout): some bytes are out, the rest is
+		// not, and the connection itself stays up
+		k := c.wr.failAt - c.wr.written
+		if k < 1 {
+			k = 1
+		}
+		if k > len(p)-1 {
+			k = len(p) - 1
+		}
+		c.wr.inflight = append(c.wr.inflight, p[:k]...)
+		c.wr.segs = append(c.wr.segs, k)
+		c.wr.written += k
+		c.wr.failAt = -1
+		c.s.Net.PartialWrites++
+		c.schedule(c.wr)
+		return k, &net.OpError{Op: "write", Net: "unix", Err: os.ErrDeadlineExceeded}
+	}
+	if c.wr.failAt >= 0 && !c.wr.failOnce && c.wr.written+len(p) > c.wr.failAt {
 		// the peer dies while this write is in progress: a partial write and an error
 		k := c.wr.failAt - c.wr.written
 		if k < 0 {
@@ -277,6 +296,14 @@ func (c *Conn) StallWrites(on bool) { c.mu.Lock(); c.wr.stalled = on; c.mu.Unloc
 // FailWriteAt plans a partial, failing write: the write by this end that crosses n bytes
 // written in total writes only up to n and returns EPIPE; the direction is dead afterwards.
 func (c *Conn) FailWriteAt(n int) { c.mu.Lock(); c.wr.failAt = n; c.mu.Unlock() }
+
+// FailWriteOnceAt makes the write that crosses n written bytes fail half-way with a timeout error while
+// the connection stays usable.
+func (c *Conn) FailWriteOnceAt(n int) {
+	c.mu.Lock()
+	c.wr.failAt, c.wr.failOnce = n, true
+	c.mu.Unlock()
+}
 
 // FreezeWrite makes the direction written by this end go silent after n delivered bytes: nothing
 // more arrives, not even an end of stream (a partition, or a peer that stopped mid-frame).
